@@ -775,9 +775,10 @@ class Template(object):
                 # Placeholder produces empty string, which
                 # implies that we must produce an empty result.
                 return ''
-            string = string.replace(placeholder, replacement)
 
-        return string
+        # Replace all placeholders in a single pass, to make sure that object
+        # values that look like placeholders are not replaced in turn.
+        return re.sub(r'\[\[[^]]*]]', lambda match: replacements[match.group(0)], string)
 
     @classmethod
     def _process_split_template(
